@@ -1,5 +1,8 @@
 SPECIFICATION Spec
 CONSTANTS MaxLen = 2
+          MaxFill = 1
+          CoreFill = 2
           SimLens = {}
+          SimFill = {}
 INVARIANT Emit
 CHECK_DEADLOCK FALSE
